@@ -462,6 +462,8 @@ class Engine:
             return v.t != null() if ty.nullable else z3.BoolVal(True)
         if isinstance(ty, TTuple):
             return z3.BoolVal(len(ty.elems) > 0)
+        if isinstance(ty, TPy) and ty.kind == 'match':
+            return v.t                       # a match object is truthy, None (no match) is falsy
         if ty is EXC or isinstance(ty, (TEnum, TObj, TPy)) or ty is CLSV:
             return z3.BoolVal(True)
         if isinstance(ty, TSet):
